@@ -62,3 +62,97 @@ Theorem C08_commit_ignores_trailing_zeros :
     commit pw (p ++ repeat 0 k) hb rng = commit pw p hb rng.
 Proof. exact @commit_ignores_trailing_zeros. Qed.
 Print Assumptions C08_commit_ignores_trailing_zeros.
+
+(* ---------------- the other group-based schemes ---------------- *)
+From PC Require Import Base.OrdMap Schemes.LC Schemes.Sonic Proofs.SonicKeys Schemes.IPA Proofs.IPAFacts Schemes.PST13 Schemes.PST13H
+     Proofs.CommitLinear.
+
+(* KZG10.commit under ANY powers: the coefficient-weighted sum of the published g-powers plus the blinding sum over the gamma-powers;
+   without a hiding bound there is no blinding polynomial and no draw *)
+Theorem C08_kzg_commit_key_sum :
+  forall (FO : FieldOps) (FL : FieldLaws FO) pw p hb rng c r n,
+    KZG10.commit pw p hb rng = Ok (c, r, n) ->
+    c = msm (pw_g pw) (trim p) + msm (pw_gamma_g pw) r /\ (hb = None -> r = [] /\ n = O).
+Proof. exact @kzg_commit_key_sum. Qed.
+Print Assumptions C08_kzg_commit_key_sum.
+
+(* Sonic: the window is the plain key, or the shifted powers of the degree bound *)
+Theorem C08_sonic_commit_key_sum :
+  forall (FO : FieldOps) (FL : FieldLaws FO) ck lp rng c r n,
+    s_commit1 ck lp rng = Ok (c, r, n) ->
+    exists pw, match lp_bound lp with
+               | Some d => s_shifted_powers ck d = Ok pw
+               | None => pw = {| pw_g := sck_g ck; pw_gamma_g := sck_gamma ck |}
+               end /\
+               c = msm (pw_g pw) (trim (lp_poly lp)) + msm (pw_gamma_g pw) r /\ (lp_hiding lp = None -> r = [] /\ n = O).
+Proof. exact @sonic_commit_key_sum. Qed.
+Print Assumptions C08_sonic_commit_key_sum.
+
+Theorem C08_sonic_commit_value :
+  forall (FO : FieldOps) (FL : FieldLaws FO) D beta g gam h up s sh bounds ck vk lp rng c r nd,
+    setup D true beta g gam h = Ok up -> strim up s sh bounds = Ok (ck, vk) -> beta <> 0 ->
+    s_commit1 ck lp rng = Ok (c, r, nd) ->
+    c = match lp_bound lp with Some d => fpow beta (D - d) | None => 1 end * (g * eval (lp_poly lp) beta + gam * eval r beta).
+Proof. exact @sonic_commit_value. Qed.
+Print Assumptions C08_sonic_commit_value.
+
+Theorem C08_sonic_commit_additive :
+  forall (FO : FieldOps) (FL : FieldLaws FO) D beta g gam h up s sh bounds ck vk lab1 lab2 lab3 p q a a' bound
+         rng1 rng2 rng3 c1 c2 c3 r1 r2 r3 n1 n2 n3,
+    setup D true beta g gam h = Ok up -> strim up s sh bounds = Ok (ck, vk) -> beta <> 0 ->
+    s_commit1 ck {| lp_label := lab1; lp_poly := p; lp_bound := bound; lp_hiding := None |} rng1 = Ok (c1, r1, n1) ->
+    s_commit1 ck {| lp_label := lab2; lp_poly := q; lp_bound := bound; lp_hiding := None |} rng2 = Ok (c2, r2, n2) ->
+    s_commit1 ck {| lp_label := lab3; lp_poly := padd (pscale a p) (pscale a' q); lp_bound := bound; lp_hiding := None |} rng3 = Ok (c3, r3, n3) ->
+    c3 = a * c1 + a' * c2.
+Proof. exact @sonic_commit_additive. Qed.
+Print Assumptions C08_sonic_commit_additive.
+
+(* IPA, free-module view (co i: the coordinate along the i-th independent generator) *)
+Theorem C08_ipa_commit_linear_map :
+  forall (FO : FieldOps) (FL : FieldLaws FO) d lp rng cm st n,
+    i_commit1 d lp rng = Ok (cm, st, n) -> lp_hiding lp = None ->
+    (forall i, co i (ic_comm cm) = dot (lp_poly lp) (map (co i) (key_of d))) /\
+    match lp_bound lp with
+    | Some b => exists sc, ic_shifted cm = Some sc /\ forall i, co i sc = dot (lp_poly lp) (skipn (d - b) (map (co i) (key_of d)))
+    | None => ic_shifted cm = None
+    end.
+Proof. exact @ipa_commit_linear_map. Qed.
+Print Assumptions C08_ipa_commit_linear_map.
+
+Theorem C08_ipa_commit_additive :
+  forall (FO : FieldOps) (FL : FieldLaws FO) d lab1 lab2 lab3 p q a a' bound rng1 rng2 rng3 c1 c2 c3 s1 s2 s3 n1 n2 n3,
+    i_commit1 d {| lp_label := lab1; lp_poly := p; lp_bound := bound; lp_hiding := None |} rng1 = Ok (c1, s1, n1) ->
+    i_commit1 d {| lp_label := lab2; lp_poly := q; lp_bound := bound; lp_hiding := None |} rng2 = Ok (c2, s2, n2) ->
+    i_commit1 d {| lp_label := lab3; lp_poly := padd (pscale a p) (pscale a' q); lp_bound := bound; lp_hiding := None |} rng3 = Ok (c3, s3, n3) ->
+    (forall i, co i (ic_comm c3) = a * co i (ic_comm c1) + a' * co i (ic_comm c2)) /\
+    match ic_shifted c1, ic_shifted c2, ic_shifted c3 with
+    | Some x1, Some x2, Some x3 => forall i, co i x3 = a * co i x1 + a' * co i x2
+    | None, None, None => bound = None
+    | _, _, _ => False
+    end.
+Proof. exact @ipa_commit_additive. Qed.
+Print Assumptions C08_ipa_commit_additive.
+
+Theorem C08_ipa_commit_zero :
+  forall (FO : FieldOps) (FL : FieldLaws FO) d lab k bound rng cm st n,
+    i_commit1 d {| lp_label := lab; lp_poly := repeat 0 k; lp_bound := bound; lp_hiding := None |} rng = Ok (cm, st, n) ->
+    gvzero (ic_comm cm) = true /\ match ic_shifted cm with Some sc => gvzero sc = true | None => bound = None end.
+Proof. exact @ipa_commit_zero. Qed.
+Print Assumptions C08_ipa_commit_zero.
+
+Theorem C08_ipa_commit_ignores_trailing_zeros :
+  forall (FO : FieldOps) (FL : FieldLaws FO) d lab p k bound hiding rng,
+    i_commit1 d {| lp_label := lab; lp_poly := p ++ repeat 0 k; lp_bound := bound; lp_hiding := hiding |} rng
+    = i_commit1 d {| lp_label := lab; lp_poly := p; lp_bound := bound; lp_hiding := hiding |} rng.
+Proof. exact @ipa_commit_ignores_trailing_zeros. Qed.
+Print Assumptions C08_ipa_commit_ignores_trailing_zeros.
+
+(* Marlin-PST13, free-module view *)
+Theorem C08_pst13_commit_additive :
+  forall (FO : FieldOps) (FL : FieldLaws FO) nv s betas p q a rng1 rng2 rng3 c1 c2 c3 b1 b2 b3 n1 n2 n3,
+    ph_commit1 nv s betas p None rng1 = Ok (c1, b1, n1) ->
+    ph_commit1 nv s betas q None rng2 = Ok (c2, b2, n2) ->
+    ph_commit1 nv s betas (madd_scaled p a q) None rng3 = Ok (c3, b3, n3) ->
+    forall i, co i c3 = co i c1 + a * co i c2.
+Proof. exact @pst13_commit_additive. Qed.
+Print Assumptions C08_pst13_commit_additive.
